@@ -14,9 +14,10 @@ CLAIMS = {
  "C01": ("For symbolic flat IR (1 controller x 1 route with rich slash structure in prefix and route; 2 controllers x 1 route and 1 controller x 2 routes with plain shapes; verb, hidden, deprecated symbolic) "
          "the in-memory documents produced by the real swagen30 and swagen31 GenerateControllersSpec contain an operation at (path, verb) iff a visible route normalises there (reference byte-loop normaliser); "
          "unique operations carry the route's operationId, its own controller's tag and deprecated flag; hidden routes never contribute; nothing else is documented. "
+         "(front end) for a source file with two controller structs, a plain struct and a free function, every subset of annotated and of hidden methods, pointer/value/anonymous receivers and with or without the second struct embedding GleeceController, the operations of both documents are exactly the annotated, non-hidden methods of the embedding structs at prefix + route"+FRONT+". "
          "(annotation side) for symbolic @Method/@Route/@Hidden/@Deprecated/@Tag annotations the real ControllerMeta.Reduce yields a route with exactly that verb, path, hiding, deprecation and tag, and both documents show or hide it accordingly.",
          "Bounds as coded in harness/.../generator/swagen/zz_verif_c01.go. Gate assumption: routes whose templates differ only in parameter names are excluded (kin-openapi validation rejects them: 'conflicting paths', so no document is emitted). "
-         "Outside: discovery of controllers/methods in source (go/ast, go/types), JSON encoding of the in-memory document.",
+         "Outside: go/packages loading itself, JSON encoding of the in-memory document.",
          "DESIGN.md 4 (C01)"),
  "C02": ("Generated routers (real templates, rendered by the CLI built from /repo for a fixture project, all five engines): (kernel, symbolic) for every route text of up to 2 segments (literal or {param}) with up to three leading slashes, doubled inner slashes and a trailing slash, "
          "the generated toGinUrl/toEchoUrl/toMuxUrl/toChiUrl/toFiberUrl register exactly the path the spec documents (every slash run collapsed, leading slash; ':x' <-> '{x}'); (corpus) the registration table of each engine is in bijection with the fixture's 7 annotated methods (hidden one included) at the documented verb and path, "
@@ -43,6 +44,7 @@ CLAIMS = {
  "C07": ("Emitter half: for a model list of two structs (one with up to 2 symbolic fields over 9 (thorough 11) type shapes incl. slices, maps, enum, alias, other struct, embedded struct, time, bytes; symbolic json tag and validate tag), an enum with 1-2 symbolic values and an alias, "
          "both GenerateModelsSpec produce exactly one component per model; properties are the JSON-visible fields with mapped type or $ref, required = fields validated as required, embedded structs via allOf, enum lists its constants, alias maps to its primitive; "
          "metamorphic non-interference: every other component is structurally identical whether or not the using struct carries usage-site validators; every $ref names an existing component; 3.0 and 3.1 components agree. "
+         "Front end: for a struct with two fields over 11 type shapes (named struct, pointer, slice, slice of slice, map, enum, alias, self reference, time.Time, []byte, string), used as body, element or return type, the components of both documents are exactly the types reachable from the route; properties are the JSON-visible fields (unexported and json:\"-\" fields are not), required lists the validated fields, the embedded struct appears via allOf, the enum lists its exported and unexported constants, the alias maps to string. "
          "Visitor half (enum values): for a hand-built go/types package with an enum type (string or int) and every subset of four constants (exported and unexported names) typed as the enum, another named type or the plain basic type, EnumVisitor.getEnumValueDefinitions returns exactly the constants of the enum's type with their declared values.",
          "Bounds as coded in harness/.../generator/swagen/zz_verif_c07.go. Outside: reachability closure over Go type graphs (go/types visitors; only the enum-constant collection is driven, on hand-built packages), json:\"-\" filtering (done by the struct visitor), RFC-7807 model injection (AppendErrorSchema is a literal).",
          "DESIGN.md 4 (C07)"),
@@ -53,13 +55,15 @@ CLAIMS = {
          "DESIGN.md 4 (C08)"),
  "C10": ("Receiver-level accept decision (CommonValidator + validateParams + annotation linker, as ReceiverValidator.Validate combines them) for every route with <=1 URL name, <=2 function parameters (primitive or struct, optional context), <=2 parameter annotations "
          "of the five kinds with symbolic values and optional name alias: no error diagnostic iff the property's linking/body/form/primitive rules hold (soundness and completeness asserted separately); return signature and verb rules; no duplicate diagnostics. "
+         "Front end: 5184 perturbed source files (unsupported or missing verb, URL name / @Path reference / @Query reference retargeted or dropped, struct or slice query parameter, four return shapes, indentation, multibyte text) are accepted by GleecePipeline.Run iff the property's predicate holds (a method without @Method is not an endpoint). "
          "One recorded finding (alias-less @Path not checked against URL names) is reported as KNOWN-FINDING.",
-         "Bounds as coded in harness/.../core/validators/zz_verif_c10.go. Outside: error-embedding lookup of the return type (go/types), controller-prefix URL names, slices/enums/aliases as parameter types (HIR shapes produced by the visitors), the pipeline gate (not yet covered).",
+         "Bounds as coded in harness/.../core/validators/zz_verif_c10.go. Outside: error-embedding lookup of the return type (go/types), controller-prefix URL names, slices/enums/aliases as parameter types (HIR shapes produced by the visitors), generics and cross-package parameter types.",
          "DESIGN.md 4 (C10)"),
  "C06": ("(a) Requiredness kernel: for every validator string up to 9 (thorough 12) bytes over the tag alphabet, pointer-ness and location, appendParamRequiredValidation + IsFieldRequired agree with the property's rule. "
          "(b) Documents: for routes with up to 2 parameters (context or one of 5 locations, symbolic wire name, 5 type shapes, 4 validators) and, separately, symbolic return shape / success code / 0-2 error codes / error type, "
          "both emitters document exactly the non-context path/query/header parameters in signature order (name, location, required, schema), the JSON body or the urlencoded form object with its required entries, "
          "the success response with the value schema or no content, each error code with the error schema (RFC-7807 for plain error), and a description on every response; 3.0 and 3.1 agree (one recorded 3.0-only `default` response). "
+         "(d) Front end: for a real method declaration with context, path, query/header, header and body parameters - every combination of pointer-ness, location, `validate:\"required\"`, grouped or separate declaration, four return shapes (value+error, error, string+error, value+custom error type), with or without @Response and @ErrorResponse - both documents carry the contract the property states (signature order, required rule, body requiredness, success code and schema, error schema, no context parameter). "
          "(c) Signature order: for 2-4 parameters under every grouping of the declaration (ordinals numbered as AstArbitrator.GetFuncParametersMeta numbers them, which collide for groups), ReceiverMeta.Reduce keeps the parameters in declaration order.",
          "Bounds as coded in harness/.../core/metadata/zz_verif_c06.go and generator/swagen/zz_verif_c06.go. Routes are assumed accepted (at most one body, never body with form; unique wire names per location). Outside: how TypeMeta is derived from Go types.",
          "DESIGN.md 4 (C06)"),
@@ -73,12 +77,14 @@ CLAIMS = {
          "each under an arbitrary (symbolic) Go map iteration order of every map it ranges over, return the same controllers in the same (sorted) order with the same import serials. "
          "File enumeration: PackagesFacade.GetAllSourceFiles (which decides the order of a controller's routes) returns 3 files with symbolic names in the same order under every map iteration order. "
          "Spec writer: sortEnumValues/ForceOrderedJSON produce the same bytes for every arrival order of 3 symbolic enum values (strings of 1-2 bytes, numbers) at each of 7 placements in components.schemas. "
+         "Front end: two analyses of a three-file, two-controller project, the second with every map iterated forwards or backwards (one order per map), yield the same metadata in the same order. "
          "No carried state (engine-only): registerPartials registers the same partials and extensions for a configuration whether or not another configuration (any engine, template override, template extension, unreadable file) was generated before it in the process.",
          "Bounds as coded in harness/.../core/pipeline/zz_verif_c13.go. Symbolic map iteration order is an engine feature (every range over a map forks over the remaining entries). Stand-ins in the engine-only harness: os.ReadFile, the handlebars library's process-wide partial registry. Outside: order of packages.Load results, Handlebars rendering, encoding/json key order, the date comment; getImports/getModels orderings are not driven.",
          "DESIGN.md 4 (C13)"),
  "C19": ("Mechanism level: SyncedProvider hands the same serial to the same key and different serials to different keys over every sequence of 4 lookups with symbolic keys; MetadataCache's Start/FinishMaterializing/AddStruct protocol equals a map model over every sequence of 3 operations; "
-         "GenerateIntermediate called twice on one long-lived pipeline (hand-built graph) returns the same controllers/routes/serials/models, does not grow the graph, and equals a brand-new session.",
-         "Bounds as coded in harness/.../core/pipeline/zz_verif_c13.go (vh_C19_*). Outside (the larger half): GenerateGraph/Validate re-runs over real ASTs (visitor state, GetFileVersion) need go/packages and are not encoded.",
+         "GenerateIntermediate called twice on one long-lived pipeline (hand-built graph) returns the same controllers/routes/serials/models, does not grow the graph, and equals a brand-new session. "
+         "Front end: on a real source file (controller with two routes, struct and enum models) every sequence of 1-3 further Run / GenerateGraph+GenerateIntermediate / Validate+GenerateIntermediate / GenerateIntermediate calls on the long-lived pipeline returns controllers, routes, parameters, import serials, models and imports equal to the first analysis and to a brand-new session.",
+         "Bounds as coded in harness/.../core/pipeline/zz_verif_c13.go (vh_C19_*). Outside: source files that change between analyses (FileVersion.HasChanged is file-system state).",
          "DESIGN.md 4 (C19)"),
  "C14": ("Crash freedom, decided by reachability of a panic on every path of the bound: both schema validation converters on every validation string of one rule (vocabulary or junk) with a symbolic value of up to 2 bytes on 6 field types incl. a $ref type; "
          "both model emitters on a struct field whose tag is free text (5 prefixes x 0-3 symbolic bytes over letters, quote, comma, '=' x 5 suffixes: missing closing quotes, empty values, stray quotes); annotation parsing and validators through vh_C14_* wrappers; "
@@ -96,8 +102,10 @@ CLAIMS = {
          "Bounds as coded in harness/.../core/annotations/zz_verif_c16.go. json5.Unmarshal runs natively inside the engine on the (concretised) group-3 text (trusted library). Whitespace before the comma and descriptions with leading/trailing blanks are assumed away (grammar ambiguity).",
          "DESIGN.md 4 (C16)"),
  "C18": ("Range arithmetic: for every text of up to 5 units (ASCII incl. CR/LF, 2- and 3-byte UTF-8 sequences) and every rune-boundary offset, byteOffsetToLineCol equals a rune-counting reference; "
-         "GetValueRange is start<=end, inside the comment's range and covers text equal to the value (or the whole comment when the value is absent), for symbolic start line/column in [0,65535].",
-         "Bounds as coded in harness/.../core/annotations/zz_verif_c18.go. Outside: FileSet positions of a real parse, file attribution, code/severity table, duplicate suppression (see C10).",
+         "GetValueRange is start<=end, inside the comment's range and covers text equal to the value (or the whole comment when the value is absent), for symbolic start line/column in [0,65535]. "
+         "Front end: for 5184 perturbed source files (see C10) every diagnostic Validate produces names the fixture file, has error severity, lies inside the file with start not after end, is not reported twice, and covers the text it is about (the invalid verb, the dangling @Path reference, the unbound {name}, the parameter declaration, the declaration line for return-shape rules), positions being those of a real parse with indentation and multibyte text. "
+         "One recorded finding (byte column of a comment's start when multibyte characters precede the comment on its line) is reported as KNOWN-FINDING.",
+         "Bounds as coded in harness/.../core/annotations/zz_verif_c18.go and generator/swagen/zz_verif_front.go. Outside: several controllers per file and several files in the diagnostics harness, the command's error text.",
          "DESIGN.md 4 (C18)"),
  "C17": ("Every history of up to 3 public operations (add node of two kinds, add edge, remove edge by kind or all kinds, remove node) with symbolic operands over 3 node ids, 2 file versions and 2 edge kinds, "
          "started from the empty graph: afterwards Exists/Get/GetEdges (outgoing iff incoming, each edge once)/Children/Parents/Descendants/FindByKind of the real SymbolGraph equal a slice-based set-of-nodes/set-of-edges model "
